@@ -191,7 +191,7 @@ def repo_tests_under_monitor(ctx, accept):
 
 HISTORIES = ["fresh", "fresh", "fresh", "solve_then_move_leaf", "solve_then_phase_conf", "solve_then_change_comp", "index_gaps",
              "identity_change_comp", "solve_then_retune", "solve_then_retune", "solve_then_phase_edit", "solve_then_phase_edit",
-             "solve_then_phase_edit"]
+             "solve_then_phase_edit", "solve_then_swap_leaves", "solve_then_rename"]
 
 
 def build_with_history(ctx, spec, mode, hseed, kw=None, prefer=None):
@@ -308,6 +308,54 @@ def build_with_history(ctx, spec, mode, hseed, kw=None, prefer=None):
                 so.set_sys_phases(P)
             ctx.count("history", mode)
             return eff, so
+    if mode == "solve_then_swap_leaves":
+        # two or three leaves are deleted and added again in the order of deletion: rustworkx hands out the freed node
+        # indices last-freed-first, so the components come back on EACH OTHER'S indices (same names, same structure)
+        leaves = [c for c in spec["comps"] if c["kind"] in S.LOADS]
+        if len(leaves) >= 2:
+            so = fresh(spec)
+            with H.quiet():
+                H.solve(so, **(kw or {}))
+            rng.shuffle(leaves)
+            pick = sorted(leaves[: rng.choice([2, 2, 3])], key=lambda c: spec["comps"].index(c))
+            for lf in pick:
+                so.del_comp(lf["name"])
+            for lf in pick:
+                S.add_one(so, spec, lf, ns)
+                if lf.get("phase") is not None:
+                    so.set_comp_phases(lf["name"], copy.deepcopy(lf["phase"]))
+            ctx.count("history", mode)
+            return spec, so
+    if mode == "solve_then_rename":
+        # one or two components (sources first) carry a temporary name while the system is analysed and get their real
+        # name through change_comp afterwards (same structure, same indices, another name)
+        cands = [c for c in spec["comps"] if c["kind"] == "Source"] + [c for c in spec["comps"] if c["kind"] not in ("Source", "PMux")]
+        pick = cands[:1] if rng.random() < 0.6 else []
+        rest = [c for c in cands if c not in pick]
+        rng.shuffle(rest)
+        pick += rest[: rng.choice([0, 1])]
+        if pick:
+            detour = copy.deepcopy(spec)
+            ren = {c["name"]: "~n_" + c["name"] for c in pick}
+            for c in detour["comps"]:
+                c["parents"] = [ren.get(p_, p_) for p_ in c["parents"]]
+                if c["name"] in ren:
+                    c["name"] = ren[c["name"]]
+                    c["rail"] = ""  # (the rail name arrives with the real name)
+                    c["via_rail_child"] = True
+            for c in detour["comps"]:
+                # children that were connected through the renamed component's rail connect by (temporary) name
+                c["via_rail"] = [False if p_ in ren.values() else v_ for p_, v_ in zip(c["parents"], c.get("via_rail") or [False] * len(c["parents"]))]
+            so = fresh(detour)
+            with H.quiet():
+                H.solve(so, **(kw or {}))
+                H.call(so.rail_rep)
+            for c in pick:
+                so.change_comp(ren[c["name"]], comp=S.make_comp(ns, c), group=c.get("group", ""), rail=c.get("rail", ""))
+                if c.get("phase") is not None:
+                    so.set_comp_phases(c["name"], copy.deepcopy(c["phase"]))
+            ctx.count("history", mode)
+            return spec, so
     if mode == "solve_then_retune":
         # the system is first built with other THERMAL resistances / loss flags (same electrical operating point),
         # solved with the very arguments of the judged call, and then re-tuned in place to the real values
@@ -367,6 +415,15 @@ def build_with_history(ctx, spec, mode, hseed, kw=None, prefer=None):
             so.add_comp(first["name"], comp=ns.KINDS["ILoad"]("~gap%d" % g_, ii=0.001))
             if rng.random() < 0.5:
                 so.add_comp(first["name"], comp=ns.KINDS["RLoss"]("~gapr%d" % g_, rs=0.1))
+        if rng.random() < 0.5:
+            # a scratch SOURCE with a child, analysed and deleted at once: the node indices it and its child held are
+            # recycled by the (non-source) components that follow
+            so.add_source(ns.KINDS["Source"]("~qsrc", vo=3.0))
+            so.add_comp("~qsrc", comp=ns.KINDS["ILoad"]("~qsl", ii=0.002))
+            with H.quiet():
+                H.solve(so)
+            so.del_comp("~qsrc")
+            ctx.count("history", "scratch source analysed and deleted (indices recycled)")
         for c in spec["comps"][1:]:
             S.add_one(so, spec, c, ns)
         S.apply_phase_conf(so, spec)
